@@ -102,21 +102,41 @@ def RawLayer.backEdge (l : FLayout) (f : RawField) (out : BNode) : Option BEdge 
   (optMapM' (fun a => if isPrivate a then nodeAt l.pBase l.params a else nodeAt l.biBase l.backIn a) f.args).map fun ins =>
     { edge := .function f.f [] [], ins := ins, out := out }
 
-/-- the edges `GraphFactory._collect_nodes` and `build` create; `none`: a private name that is not defined (`FieldError`) -/
-def RawLayer.factoryEdges (r : RawLayer) (l : FLayout) : Option (List BEdge) := do
-  let consts ← optMapM' (fun (c : String × Val) => do
-      let p ← nodeAt l.pBase l.params c.1
-      let a ← nodeAt l.aBase l.args (toArgument c.1)
-      some [identityEdge a p, ({ edge := .constant c.2, ins := [], out := a } : BEdge)]) r.consts
-  let params ← optMapM' (fun f => do r.fwdEdge l f (← nodeAt l.pBase l.params f.name)) r.params
-  let fields ← optMapM' (fun f => do r.fwdEdge l f (← nodeAt l.oBase l.outputs f.name)) r.fields
-  let invs ← optMapM' (fun f => do RawLayer.backEdge l f (← nodeAt l.boBase l.backOut f.name)) r.inverses
-  let key : List BEdge := if r.isSource then
-      (match nodeAt 0 l.inputs "id", nodeAt l.oBase l.outputs "id" with
-       | some i, some o => [identityEdge i o]
-       | _, _ => [])
-    else []
-  some (key ++ consts.flatten ++ params ++ fields ++ invs)
+/-- the two edges of a constructor argument: `IdentityEdge(argument -> parameter)` and, in `build`, `ConstantEdge(value) -> argument` -/
+def constEdges (l : FLayout) (c : String × Val) : Option (List BEdge) :=
+  match nodeAt l.pBase l.params c.1, nodeAt l.aBase l.args (toArgument c.1) with
+  | some p, some a => some [identityEdge a p, ({ edge := .constant c.2, ins := [], out := a } : BEdge)]
+  | _, _ => none
+
+def RawLayer.paramEdge (r : RawLayer) (l : FLayout) (f : RawField) : Option BEdge :=
+  match nodeAt l.pBase l.params f.name with
+  | some p => r.fwdEdge l f p
+  | none => none
+
+def RawLayer.fieldEdge (r : RawLayer) (l : FLayout) (f : RawField) : Option BEdge :=
+  match nodeAt l.oBase l.outputs f.name with
+  | some o => r.fwdEdge l f o
+  | none => none
+
+def RawLayer.invEdge (l : FLayout) (f : RawField) : Option BEdge :=
+  match nodeAt l.boBase l.backOut f.name with
+  | some o => RawLayer.backEdge l f o
+  | none => none
+
+/-- `SourceFactory._before_collect`: the key is passed on as the field `id` -/
+def RawLayer.keyEdges (r : RawLayer) (l : FLayout) : List BEdge :=
+  if r.isSource then
+    (match nodeAt 0 l.inputs "id", nodeAt l.oBase l.outputs "id" with
+     | some i, some o => [identityEdge i o]
+     | _, _ => [])
+  else []
+
+/-- the edges `GraphFactory._collect_nodes` and `build` create -/
+def RawLayer.factoryEdges (r : RawLayer) (l : FLayout) : Option (List BEdge) :=
+  match optMapM' (constEdges l) r.consts, optMapM' (r.paramEdge l) r.params, optMapM' (r.fieldEdge l) r.fields,
+        optMapM' (RawLayer.invEdge l) r.inverses with
+  | some consts, some params, some fields, some invs => some (r.keyEdges l ++ consts.flatten ++ params ++ fields ++ invs)
+  | _, _, _, _ => none
 
 /-! ### `detect_optionals` -/
 
@@ -154,29 +174,40 @@ inductive FactoryErr where
   deriving Repr, Inhabited
 
 def reversible (inputs outputs : List BNode) (es : List BEdge) (backIn backOut : List BNode) (optNames : List String)
-    (fwd back : NameSet) (persistent : List String) (next : Nat) : Except FactoryErr Bag := do
-  let b1 ← (mkBag { inputs, outputs, edges := es, virt := fwd, persistent, optional := [], ctx := .no, next }).mapError .bag
-  let opt ← match detectOptionals optNames b1.inputs b1.outputs backIn backOut b1.edges with
-    | some o => pure o
-    | none => throw .optional
-  (checkDups b1.inputs).mapError .bag
-  (mkBag { inputs := b1.inputs, outputs := b1.outputs, edges := b1.edges, virt := b1.virt, persistent,
-           optional := opt, ctx := .bag backIn backOut back, next := b1.next }).mapError .bag
+    (fwd back : NameSet) (persistent : List String) (next : Nat) : Except FactoryErr Bag :=
+  match mkBag { inputs, outputs, edges := es, virt := fwd, persistent, optional := [], ctx := .no, next } with
+  | .error e => .error (.bag e)
+  | .ok b1 =>
+    match detectOptionals optNames b1.inputs b1.outputs backIn backOut b1.edges with
+    | none => .error .optional
+    | some opt =>
+      match checkDups b1.inputs with
+      | .error e => .error (.bag e)
+      | .ok _ =>
+        match mkBag { inputs := b1.inputs, outputs := b1.outputs, edges := b1.edges, virt := b1.virt, persistent,
+                      optional := opt, ctx := .bag backIn backOut back, next := b1.next } with
+        | .error e => .error (.bag e)
+        | .ok b => .ok b
+
+def RawLayer.hasInherit (r : RawLayer) : Bool :=
+  match r.inherit with | .unset => false | .names xs => !xs.isEmpty | .all => true
+def RawLayer.hasExclude (r : RawLayer) : Bool :=
+  match r.exclude with | some ex => !ex.isEmpty | none => false
 
 /-- the container of a layer instance: `factory.build(arguments)` -/
-def RawLayer.factory (r : RawLayer) : Except FactoryErr Bag := do
-  if r.isSource && (r.fields ++ r.params).any (·.name == "id") then throw .field
-  if !r.keysOK then throw .field
-  let hasInherit := match r.inherit with | .unset => false | .names xs => !xs.isEmpty | .all => true
-  if !r.isSource && hasInherit && (match r.exclude with | some ex => !ex.isEmpty | none => false) then throw .value
-  let l := r.layout
-  let es ← match r.factoryEdges l with
-    | some es => pure es
-    | none => throw .field
-  let fwd := if r.isSource then NameSet.fin [] else normalizeInherit r.inherit r.exclude l.outputs
-  let back := if r.isSource then NameSet.fin [] else normalizeInherit r.inherit r.exclude l.backOut
-  let persistent := if r.isSource then dedup ("id" :: (r.fields.filter (·.isMeta)).map (·.name)) else []
-  reversible (nodesAt 0 l.inputs) (nodesAt l.oBase l.outputs) es (nodesAt l.biBase l.backIn) (nodesAt l.boBase l.backOut)
-    ((r.fields.filter (·.opt)).map (·.name)) fwd back persistent l.next
+def RawLayer.factory (r : RawLayer) : Except FactoryErr Bag :=
+  if r.isSource && (r.fields ++ r.params).any (·.name == "id") then .error .field
+  else if !r.keysOK then .error .field
+  else if !r.isSource && r.hasInherit && r.hasExclude then .error .value
+  else
+    match r.factoryEdges r.layout with
+    | none => .error .field
+    | some es =>
+      let l := r.layout
+      let fwd := if r.isSource then NameSet.fin [] else normalizeInherit r.inherit r.exclude l.outputs
+      let back := if r.isSource then NameSet.fin [] else normalizeInherit r.inherit r.exclude l.backOut
+      let persistent := if r.isSource then dedup ("id" :: (r.fields.filter (·.isMeta)).map (·.name)) else []
+      reversible (nodesAt 0 l.inputs) (nodesAt l.oBase l.outputs) es (nodesAt l.biBase l.backIn) (nodesAt l.boBase l.backOut)
+        ((r.fields.filter (·.opt)).map (·.name)) fwd back persistent l.next
 
 end CM
